@@ -20,9 +20,11 @@ VARIABLES store,     \* history of encryptions: [sv |-> SecureValue(method, ciph
           chal,      \* the challenge field's value: NoChal or [alg, salt, saltlen, pt]
           onfile,    \* which key each key FILE holds right now (the KeyFile objects are named after
                      \* the key their file held at the start; files can be swapped between sessions)
+          dflt,      \* the challenge field of the schema declares a default (every fresh configuration
+                     \* hashes it with a salt of its own)
           ev, steps
-vars == <<store, nonce, chal, onfile, ev, steps>>
-St == [store |-> store, nonce |-> nonce, chal |-> chal, onfile |-> onfile]
+vars == <<store, nonce, chal, onfile, dflt, ev, steps>>
+St == [store |-> store, nonce |-> nonce, chal |-> chal, onfile |-> onfile, dflt |-> dflt]
 
 Keys == {"K1", "K2"}
 \* (K1 contains the bytes 10 and 13; K2 ENDS in a line feed - a key is 32 arbitrary bytes)
@@ -61,7 +63,7 @@ DecryptV(key, sv) ==
         ELSE Dec(FALSE, <<>>, TRUE)                                                 \* wrong key: error or garbage, never pt
 
 NoChal == [alg |-> "none", salt |-> 0, saltlen |-> 0, pt |-> ""]
-Init == store = <<>> /\ nonce = 0 /\ chal = NoChal /\ onfile = [k \in Keys |-> k] /\ ev = [op |-> "Init"] /\ steps = 0
+Init == store = <<>> /\ nonce = 0 /\ chal = NoChal /\ onfile = [k \in Keys |-> k] /\ dflt = FALSE /\ ev = [op |-> "Init"] /\ steps = 0
 Tick == steps < MaxOps /\ steps' = steps + 1
 
 \* key names the KeyFile object; the key that encrypts is the one its file holds when the session opens
@@ -71,7 +73,7 @@ Encrypt(kf, m, pt) ==
         sv == EncryptV(key, m, pt, nonce + 1)
     IN  /\ store' = Append(store, [sv |-> sv, key |-> key, pt |-> pt])
         /\ nonce' = IF aes THEN nonce + 1 ELSE nonce
-        /\ UNCHANGED <<chal, onfile>>
+        /\ UNCHANGED <<chal, onfile, dflt>>
         /\ ev' = [op |-> "Encrypt", key |-> kf, m |-> m, pt |-> pt, out |-> "ok", sv |-> sv]
 
 \* the same bytes encrypted twice while ONE key session is open (nested: the second call inside
@@ -84,20 +86,20 @@ EncryptPair(kf, m, pt, nested) ==
         sv2 == EncryptV(key, m, pt, nonce + 2)
     IN  /\ store' = store \o <<[sv |-> sv1, key |-> key, pt |-> pt], [sv |-> sv2, key |-> key, pt |-> pt]>>
         /\ nonce' = IF aes THEN nonce + 2 ELSE nonce
-        /\ UNCHANGED <<chal, onfile>>
+        /\ UNCHANGED <<chal, onfile, dflt>>
         /\ ev' = [op |-> "EncryptPair", key |-> kf, m |-> m, pt |-> pt, nested |-> nested, out |-> "ok", sv |-> sv1, sv2 |-> sv2]
 
 \* the files of the two key-file objects exchange their contents (between sessions): every later
 \* session of an object uses what its file holds now
 Swap ==
     /\ onfile' = [k \in Keys |-> onfile[IF k = "K1" THEN "K2" ELSE "K1"]]
-    /\ UNCHANGED <<store, nonce, chal>>
+    /\ UNCHANGED <<store, nonce, chal, dflt>>
     /\ ev' = [op |-> "Swap", out |-> "ok"]
 
 Decrypt(kf, i) ==
     LET key == onfile[kf]
         r == DecryptV(key, store[i].sv) IN
-    /\ UNCHANGED <<store, nonce, chal, onfile>>
+    /\ UNCHANGED <<store, nonce, chal, onfile, dflt>>
     \* with a wrong AES key the implementation raises or returns garbage (which of the two
     \* depends on the random IV): the property only says "never the plaintext"
     /\ ev' = [op |-> "Decrypt", key |-> kf, i |-> i,
@@ -111,7 +113,7 @@ Decrypt(kf, i) ==
 PadOk(blk) == LET last == blk[16] IN last \in 1..16 /\ \A j \in (17 - last)..16 : blk[j] = last
 DecryptTruncated(i) ==
     /\ store[i].sv.m = "aes" /\ Len(store[i].pt) >= 17
-    /\ UNCHANGED <<store, nonce, chal, onfile>>
+    /\ UNCHANGED <<store, nonce, chal, onfile, dflt>>
     /\ ev' = [op |-> "DecryptTruncated", i |-> i,
               out |-> IF PadOk(SubSeq(store[i].pt, 1, 16)) THEN "ok" ELSE "error"]
 
@@ -125,7 +127,7 @@ BadCts == {[m |-> "aes", ct |-> [k |-> "raw", y |-> PT(0, 0)]],       \* empty
            [m |-> "", ct |-> [k |-> "raw", y |-> PT(32, 6)]]}
 DecryptBad(key, sv) ==
     LET r == DecryptV(key, sv) IN
-    /\ UNCHANGED <<store, nonce, chal, onfile>>
+    /\ UNCHANGED <<store, nonce, chal, onfile, dflt>>
     /\ ev' = [op |-> "DecryptBad", key |-> key, sv |-> sv, out |-> IF r.ok THEN "ok" ELSE "error"]
 
 \* SecureField.to_python on stored values of the wrong shape or encoding.  shape names are
@@ -137,7 +139,7 @@ StoredShapes == {"none", "plain-str", "dict-no-method", "dict-null-method", "dic
                  "dict-int-method", "dict-no-ciphertext", "dict-int-ciphertext", "dict-bad-padding-b64",
                  "dict-foreign-chars-b64", "dict-aes-short", "dict-aes-unaligned", "dict-aes-wrong-key", "list", "int"}
 LoadStored(shape, fm) ==
-    /\ UNCHANGED <<store, nonce, chal, onfile>>
+    /\ UNCHANGED <<store, nonce, chal, onfile, dflt>>
     /\ ev' = [op |-> "LoadStored", shape |-> shape, fm |-> fm,
               out |-> IF shape \in {"none", "plain-str"} THEN "ok" ELSE "error"]
 
@@ -154,22 +156,32 @@ Assign(alg, p) ==        \* cfg.password = plaintext   (the field's algorithm is
     /\ (chal = NoChal \/ chal.alg = alg)
     /\ chal' = DV(alg, nonce + 1, p)
     /\ nonce' = nonce + 1
-    /\ UNCHANGED <<store, onfile>>
+    /\ UNCHANGED <<store, onfile, dflt>>
     /\ ev' = [op |-> "Assign", alg |-> alg, p |-> p, out |-> "ok"]
+\* the first configuration of a schema whose challenge field declares a text default: the default
+\* is stored hashed like any other plaintext (also the empty one)
+BuildDefault(alg, p) ==
+    /\ chal = NoChal /\ p # "bytes"
+    /\ chal' = DV(alg, nonce + 1, p)
+    /\ nonce' = nonce + 1
+    /\ UNCHANGED <<store, onfile>> /\ dflt' = TRUE
+    /\ ev' = [op |-> "BuildDefault", alg |-> alg, p |-> p, out |-> "ok"]
 LoadPlain(alg, p) ==     \* a plaintext written by hand into a document is hashed on load
     /\ p # "bytes"                              \* (documents hold text)
     /\ (chal = NoChal \/ chal.alg = alg)
     /\ chal' = DV(alg, nonce + 1, p)
     /\ nonce' = nonce + 1
-    /\ UNCHANGED <<store, onfile>>
+    /\ UNCHANGED <<store, onfile, dflt>>
     /\ ev' = [op |-> "LoadPlain", alg |-> alg, p |-> p, out |-> "ok"]
 Challenge(q) ==
     /\ chal # NoChal
-    /\ UNCHANGED <<store, nonce, chal, onfile>>
+    /\ UNCHANGED <<store, nonce, chal, onfile, dflt>>
     /\ ev' = [op |-> "Challenge", q |-> q, out |-> IF q = chal.pt THEN "ok" ELSE "error"]
 SaveLoad(fmt) ==         \* dumps(fmt) then loads into a fresh configuration
     /\ chal # NoChal
-    /\ UNCHANGED <<store, nonce, chal, onfile>>
+    \* (the fresh configuration first hashes the declared default, drawing a salt, then takes the loaded value)
+    /\ nonce' = IF dflt THEN nonce + 1 ELSE nonce
+    /\ UNCHANGED <<store, chal, onfile, dflt>>
     /\ ev' = [op |-> "SaveLoad", fmt |-> fmt, out |-> "ok"]
 
 Next ==
@@ -182,6 +194,7 @@ Next ==
     \/ \E k \in Keys, m \in Methods, p \in PairPlaintexts, nested \in BOOLEAN : Tick /\ EncryptPair(k, m, p, nested)
     \/ \E a \in Algs, p \in SecretNames : Tick /\ Assign(a, p)
     \/ \E a \in Algs, p \in SecretNames : Tick /\ LoadPlain(a, p)
+    \/ \E a \in Algs, p \in {"empty", "a", "colon"} : Tick /\ BuildDefault(a, p)
     \/ \E q \in SecretNames : Tick /\ Challenge(q)
     \/ \E f \in {"json", "yaml", "bson", "xml", "pickle"} : Tick /\ SaveLoad(f)
 
@@ -212,7 +225,7 @@ C08_MalformedRejected ==
 
 (* C09 *)
 C09_Exact == ev.op = "Challenge" => (ev.out = "ok" <=> ev.q = chal.pt)
-A_FreshSalt == (ev'.op \in {"Assign", "LoadPlain"}) => chal'.salt = nonce + 1 /\ (chal # NoChal => chal'.salt # chal.salt)
+A_FreshSalt == (ev'.op \in {"Assign", "LoadPlain", "BuildDefault"}) => chal'.salt = nonce + 1 /\ (chal # NoChal => chal'.salt # chal.salt)
 C09_FreshSalt == [][A_FreshSalt]_vars
 C09_SaltLen == chal # NoChal => chal.saltlen = DigestSize(chal.alg)
 A_Survives == (ev'.op \in {"SaveLoad", "Challenge"}) => chal' = chal
@@ -221,5 +234,5 @@ C09_HandWrittenHashed == ev.op = "LoadPlain" => chal.pt = ev.p /\ chal.salt = no
 
 Export == PrintT(<<"EDGE", ToJson([from |-> St, ev |-> ev', to |-> St'])>>)
 PInit  == (steps = 0) => PrintT(<<"INIT", ToJson(St)>>)
-View == <<store, nonce, chal, onfile, steps>>
+View == <<store, nonce, chal, onfile, dflt, steps>>
 =============================================================================
